@@ -81,7 +81,7 @@ Proof. exact prune_keeps_boundaries. Qed.
 Print Assumptions C06_prune_keeps_boundaries.
 
 (* at least one existing chunk is always kept, whatever the slice (also an empty one): no zero-size chunk is ever
-   requested from the store at the offset of a real chunk (finding F20, fixed). *)
+   requested from the store at the offset of a real chunk (finding C06-F1, fixed). *)
 Theorem C06_prune_keeps_one : forall cs start stop, cs <> [] ->
   let '(cs2, _, _, _) := prune_core cs start stop in cs2 <> [].
 Proof. exact prune_keeps_one. Qed.
